@@ -14,7 +14,7 @@ ENGINES = [
      "kind_free_text": "Kani/CBMC bounded model checking of the real generated table functions (harness injected into the generated module), CYK oracle from an independent specification CFG"},
     {"name": "E2 redsym", "path": "vlib/e2.py", "serves_properties": ["C02", "C06", "C14", "C17"],
      "kind_free_text": "Kani/CBMC on one real generated reduce step per production, recording actions, expectations from corpus/actions.py"},
-    {"name": "E3 symdrive", "path": "engines/symdrive + vlib/e3.py", "serves_properties": ["C04", "C05", "C08", "C16", "C17"],
+    {"name": "E3 symdrive", "path": "engines/symdrive + vlib/e3.py", "serves_properties": ["C04", "C05", "C06", "C08", "C16", "C17"],
      "kind_free_text": "dynamic symbolic execution of the real natively compiled lalrpop_util driver instantiated with SMT-term handles; z3 decides branch feasibility; event-log property checks"},
     {"name": "E4 lexsym", "path": "vlib/lexsym.py", "serves_properties": ["C09", "C10", "C11"],
      "kind_free_text": "z3 sequence/regex theory over the lexer tables the real generator emitted; regex-syntax HIR via engines/hirdump; alphabet compression; native confirmation with the real Matcher"},
@@ -104,12 +104,14 @@ chk("C11", "E4 lexsym", "translation_validation",
 chk("C02", "E2 redsym", "model_checking",
     "For every production of the action corpus (named/mut/tuple bindings, <>, default unit/single/tuple actions, inlined and fallible actions) Kani executes the REAL generated __reduce(p, ..) on a stack of "
     "symbolic values/locations/states and decides that the recording-action log is exactly the post-order, left-to-right call sequence with the right arguments, each node once, the pushed value is the "
-    "documented one, states are popped/pushed per __simulate_reduce/__goto. Composition with C01 (which reduction when) and the driver engine gives whole-parse results (argument, not a solver verdict).",
+    "documented one, states are popped/pushed per __simulate_reduce/__goto. Terminal values: for extern tokens with 0/1/2/3/12 captures (tuple and struct patterns, shared variants) the chain real __token_to_integer -> "
+    "real __token_to_symbol -> real __reduce hands the captures to the action in written order. Composition with C01 (which reduction when) and the driver engine gives whole-parse results (argument, not a solver verdict).",
     E2_NOTE, "bounded model checking (Kani/CBMC) of one real reduce step per production from an arbitrary well-typed stack", "DESIGN.md §2 E2, §3 C02")
 chk("C06", "E2 redsym", "model_checking",
     "PARTIAL (table-driven backend): same harnesses as C02 with symbolic usize locations everywhere: span = (first child start, last child end); empty production = lookahead start | end of the symbol below | Default; "
-    "@L/@R values as received by the recording actions (neighbour rule, inlined empties). One known finding (adjacent `@L @R`).", E2_NOTE,
-    "bounded model checking (Kani/CBMC) of one real reduce step with symbolic locations", "DESIGN.md §3 C06")
+    "@L/@R values as received by the recording actions (neighbour rule, inlined empties). One known finding (adjacent `@L @R`). Driver half (E3): on every path of the real driver within the step bounds "
+    "(with and without recovery) each reduce() call is handed the start of the current lookahead token, None at end of input.", E2_NOTE + " " + E3_NOTE,
+    "bounded model checking (Kani/CBMC) of one real reduce step with symbolic locations + dynamic symbolic execution (z3) of the real driver", "DESIGN.md §3 C06")
 chk("C08", "E1+E3+E4", "model_checking",
     "PARTIAL, bounded, per component: (i) LR run over the real tables halts within the derived fuel/stack bound for all inputs <= N (Kani); (ii) every path of the real state_machine.rs driver within the step bounds "
     "(plain, stream/action errors, recovery) returns without panic (native DSE + z3); (iii) built-in lexer progress: z3 finds per terminal set the inputs where only an empty match exists, the real Matcher is run on them "
